@@ -243,50 +243,75 @@ func VH_C09_U3_resync() {
 	}
 	file := buf.Bytes()
 	vrt.Assert("three-blocks", len(file) == 768)
-	// damage inside block 0
+	// damage inside block 0, or inside block 1 (so that the record after the damage is the last
+	// block of the file)
+	db := 256 * vrt.Choice("damaged-block", 2)
+	blk := file[db : db+256]
 	kind := vrt.Choice("damage", 4)
 	known := false
 	switch kind {
 	case 0: // overwrite one byte of the key/value area with a different byte
-		pos := 24 + vrt.Choice("pos", 5)
+		pos := 24 + vrt.Choice("pos", 3)
 		nb := vrt.U8("newbyte")
-		vrt.Assume(nb != file[pos])
-		file[pos] = nb
+		vrt.Assume(nb != blk[pos])
+		blk[pos] = nb
 	case 1: // zero the whole block
 		for i := 0; i < 256; i++ {
-			file[i] = 0
+			blk[i] = 0
 		}
 	case 2: // arbitrary size fields (may claim a huge, zero, or past-EOF length)
 		nsz := vrt.Bytes("sizes", 8)
-		vrt.Assume(!vrt.BytesEq(nsz, file[16:24]))
-		copy(file[16:24], nsz)
+		vrt.Assume(!vrt.BytesEq(nsz, blk[16:24]))
+		copy(blk[16:24], nsz)
 		ksz, vsz := binary.LittleEndian.Uint32(nsz[0:]), binary.LittleEndian.Uint32(nsz[4:])
 		// bound: valid-looking sizes are drawn from {1..3, 250} x {0..6, 598..600}; invalid ones are free
 		vrt.Assume(vrt.Any(ksz == 0, ksz <= 3, ksz == 250, ksz > 250))
 		vrt.Assume(vrt.Any(vsz <= 6, vrt.All(vsz >= 598, vsz <= 600), vsz > 600))
 		// F4: sizes that are individually valid but reach past the end of the file
-		known = ksz >= 1 && ksz <= 250 && vsz <= 600 && uint64(24)+uint64(ksz)+uint64(vsz) > 768
+		known = ksz >= 1 && ksz <= 250 && vsz <= 600 && uint64(db)+uint64(24)+uint64(ksz)+uint64(vsz) > 768
 	case 3: // flipped CRC field
 		nc := vrt.Bytes("crc", 4)
-		vrt.Assume(!vrt.BytesEq(nc, file[0:4]))
-		copy(file[0:4], nc)
+		vrt.Assume(!vrt.BytesEq(nc, blk[0:4]))
+		copy(blk[0:4], nc)
 	}
 	vrt.Assert("write", writeFileBytes(path, file) == nil)
 	sr, _ := newDataStreamReader(path, 4096)
-	rec, off, broken, err := sr.Next()
-	vrt.AssertKnown("scan-continues-after-damage", "F4", known, vrt.All(err == nil, rec != nil))
-	if err == nil && rec != nil {
-		// modulo CRC collisions the damaged record is not returned: the first yield is record 1
-		vrt.Assert("first-yield-is-an-intact-record", vrt.Any(vrt.All(off == 256, c09sameQuiet(rec, recs[1])), vrt.All(off == 0)))
-		if off == 256 {
+	// the scan must yield every intact record (modulo CRC collisions the damaged one is not
+	// returned) with its offset, and then end cleanly
+	next := 0
+	if db == 0 {
+		next = 1
+	}
+	first := true
+	for next < 3 {
+		rec, off, broken, err := sr.Next()
+		if first {
+			vrt.AssertKnown("scan-continues-after-damage", "F4", known, vrt.All(err == nil, rec != nil))
+		} else {
+			vrt.AssertKnown("scan-yields-every-intact-record", "F4", known, vrt.All(err == nil, rec != nil))
+		}
+		if err != nil || rec == nil {
+			sr.Close()
+			return
+		}
+		if int(off) == db {
+			// the damaged block itself came back: only possible through a CRC collision of the fold
+			vrt.Reach("crc-collision-path")
+			sr.Close()
+			return
+		}
+		vrt.Assert("intact-record-at-its-offset", vrt.All(int(off) == 256*next, c09sameQuiet(rec, recs[next])))
+		if first && db == 0 || !first && db == 256 && next == 2 {
 			vrt.Assert("broken-size-reported", broken > 0)
-			rec2, off2, _, err2 := sr.Next()
-			vrt.Assert("second-intact-record", vrt.All(err2 == nil, rec2 != nil))
-			if rec2 != nil {
-				vrt.Assert("second-intact-record-identical", vrt.All(off2 == 512, c09sameQuiet(rec2, recs[2])))
-			}
+		}
+		first = false
+		next++
+		if next == 1 && db == 256 {
+			next = 2
 		}
 	}
+	rec, _, _, err := sr.Next()
+	vrt.Assert("scan-ends-cleanly", vrt.All(rec == nil, err == nil))
 	sr.Close()
 }
 
